@@ -7,7 +7,7 @@ def encode(c, r):
     if r.get("panic"):
         return None
     lits = []
-    for st in r["out"]["steps"]:
+    for st in (r["out"].get("steps") or []):
         l = worldenc.encode_step(st, c["options"])
         if l is not None:
             lits.append(l)
